@@ -55,8 +55,10 @@ def hdrOf (id : Nat) (ws : List String) : Option (CallHdr NS) :=
   | [callc, cap, stip, kind, xfer, funded, sw, pOk, pFail] =>
     match callc.toNat?, cap.toNat?, stip.toNat?, parseKind kind, pOk.toNat?, pFail.toNat? with
     | some callc, some cap, some stip, some kind, some pOk, some pFail =>
+      -- xfer: 0 = no value, 1 = value moved by `evm.Call` (journaled bank move), 2 = CALLCODE with a value: balance check only
+      if xfer == "2" && kind != .callcode then none else
       some { callc, cap, stip, kind, xfer := if xfer == "1" then some (fun n => (100000 + id) :: n) else none,
-             funded := fun _ => funded == "1", swallow := sw == "1", pOk, pFail }
+             funded := fun _ => funded == "1", swallow := sw == "1", pOk, pFail, checkOnly := xfer == "2" }
     | _, _, _, _, _, _ => none
   | _ => none
 
@@ -113,8 +115,10 @@ partial def parseList : List String → Option (List (Prog NS) × List Nat × Li
         let sh := match rf with | some rf => shapeOf rf | none => RunShape.tidy
         let met := match rf with | some rf => metered rf | none => false
         -- a failing action half-writes (999999) and emits its logs before it fails
+        -- round 4: a log remembers which precompile emitted it (2·id + 1 = crosschain, 2·id = staking; from the regenerated table)
+        let lid := 2 * id + (match mrow with | some m => (if m.contract == "crosschain" then 1 else 0) | none => 0)
         let act : ActionX NS := fun ro gasLeft n =>
-          let lg := List.replicate (nlog + (if mark != 0 && n.contains (markBase + mark) then 1 else 0)) id
+          let lg := List.replicate (nlog + (if mark != 0 && n.contains (markBase + mark) then 1 else 0)) lid
           let n' := if mark != 0 then (markBase + mark) :: n else n
           if ro && w == "1" then (.err, 999999 :: n, lg) else
           -- a method that meters its native work against the gas left in the frame panics part-way when that runs out
@@ -130,6 +134,10 @@ partial def parseList : List String → Option (List (Prog NS) × List Nat × Li
       | _, _ => none
     | _, _, _, _, _, _ => none
   | _ => none
+
+/-- the surviving precompile logs in emission order: `s` = staking precompile, `c` = crosschain precompile -/
+def showLogs (ls : List Nat) : String :=
+  s!"{ls.length}:" ++ String.ofList (ls.reverse.map (fun x => if x % 2 == 1 then 'c' else 's'))
 
 def showNats (xs : List Nat) : String :=
   if xs.isEmpty then "-" else ",".intercalate ((xs.mergeSort (· ≤ ·)).map toString)
@@ -150,7 +158,7 @@ def step (st : Unit) (line : String) : Unit × String :=
       -- anything committed that is not the effect of a kept call: a write made outside a native action, a half-written store
       let leak := r.2.1.native.any (fun x => x == 999999 || x ≥ leakBase)
       let frames := (r.2.1.native.filter (fun x => frameBase ≤ x && x < resBase)).map (· - frameBase)
-      (st, s!"{status} gas={used} markers={showNats ms} kept={showNats kept} frames={showNats frames} logs={r.2.1.logs.length} ref={if leak then "diff" else "same"}")
+      (st, s!"{status} gas={used} markers={showNats ms} kept={showNats kept} frames={showNats frames} logs={showLogs r.2.1.logs} ref={if leak then "diff" else "same"}")
     | _, _, _ => (st, "bad-op")
   | "direct" :: gl :: intr :: toks =>
     -- the transaction's `to` is the precompile: one precompile node, no caller frame
@@ -165,7 +173,7 @@ def step (st : Unit) (line : String) : Unit × String :=
       let used := (gl - intr) - r.2.2
       let leak := r.2.1.native.any (fun x => x == 999999 || x ≥ leakBase)
       let frames := (r.2.1.native.filter (fun x => frameBase ≤ x && x < resBase)).map (· - frameBase)
-      (st, s!"{status} gas={used} markers={showNats ms} kept={showNats kept} frames={showNats frames} logs={r.2.1.logs.length} ref={if leak then "diff" else "same"}")
+      (st, s!"{status} gas={used} markers={showNats ms} kept={showNats kept} frames={showNats frames} logs={showLogs r.2.1.logs} ref={if leak then "diff" else "same"}")
     | _, _, _ => (st, "bad-op")
   | _ => (st, "bad-op")
 
